@@ -113,7 +113,7 @@ func ruleTokenErr(c *eng.Ctx) {
 	var first token.Pos
 	for _, f := range c.P.ModuleFuncs() {
 		for _, ci := range eng.Calls(f, false, func(string, ssa.CallInstruction) bool { return true }) {
-			if ci.Common().StaticCallee() != fn {
+			if eng.StaticCallee(ci) != fn {
 				continue
 			}
 			v := ci.Value()
@@ -360,7 +360,7 @@ func ruleIndexBound(c *eng.Ctx) {
 				call, _ := exLow.Tuple.(*ssa.Call)
 				var h *ssa.Function
 				if call != nil {
-					h = call.Call.StaticCallee()
+					h = eng.StaticCallee(call)
 				}
 				if h == nil || h.Blocks == nil || !eng.InModule(h) {
 					miss = []string{"bounds come from a call that cannot be resolved"}
@@ -637,7 +637,7 @@ func hasDepthGuard(fn *ssa.Function, what string, others ...*ssa.Function) bool 
 	// or in a helper that a member of the cycle calls (the lookup that precedes the descent, split off)
 	for _, o := range append([]*ssa.Function{fn}, others...) {
 		for _, ci := range eng.Calls(o, false, func(string, ssa.CallInstruction) bool { return true }) {
-			if g := ci.Common().StaticCallee(); g != nil && g.Blocks != nil && g.Pkg == fn.Pkg && !seen[g] {
+			if g := eng.StaticCallee(ci); g != nil && g.Blocks != nil && g.Pkg == fn.Pkg && !seen[g] {
 				seen[g] = true
 				eng.Instrs(g, false, scan)
 			}
@@ -782,7 +782,7 @@ func genericTreeRecursion(scc []*ssa.Function) bool {
 				ok = false
 				return
 			}
-			cal := ci.Common().StaticCallee()
+			cal := eng.StaticCallee(ci)
 			if cal == nil || !in[cal] {
 				return
 			}
@@ -888,7 +888,7 @@ func genericRecGuard(scc []*ssa.Function) (string, bool) {
 				found := false
 				eng.Instrs(g, false, func(i ssa.Instruction) {
 					ci, ok := i.(ssa.CallInstruction)
-					if !ok || ci.Common().StaticCallee() != f || pi >= len(ci.Common().Args) {
+					if !ok || eng.StaticCallee(ci) != f || pi >= len(ci.Common().Args) {
 						return
 					}
 					if b, ok := ci.Common().Args[pi].(*ssa.BinOp); ok && b.Op == token.ADD {
@@ -954,7 +954,7 @@ func ruleRefLoops(c *eng.Ctx) {
 			for _, h := range eng.Cluster(fn, 2) {
 				self := false
 				for _, ci := range eng.Calls(h, false, func(string, ssa.CallInstruction) bool { return true }) {
-					if ci.Common().StaticCallee() == h {
+					if eng.StaticCallee(ci) == h {
 						self = true
 					}
 				}
@@ -975,7 +975,7 @@ func ruleRefLoops(c *eng.Ctx) {
 			}
 			inLoop := false
 			for _, ci := range eng.Calls(f, false, func(string, ssa.CallInstruction) bool { return true }) {
-				if ci.Common().StaticCallee() == step && eng.InLoop(ci.Block()) {
+				if eng.StaticCallee(ci) == step && eng.InLoop(ci.Block()) {
 					inLoop = true
 				}
 			}
@@ -1017,7 +1017,7 @@ func ruleRefLoops(c *eng.Ctx) {
 				if !isCall || !eng.InLoop(in.Block()) {
 					return
 				}
-				h := call.Common().StaticCallee()
+				h := eng.StaticCallee(call)
 				if h == nil || h.Blocks == nil || !eng.InModule(h) {
 					return
 				}
@@ -1176,7 +1176,7 @@ func depthBalanceIn(c *eng.Ctx, R, fnName string, fn *ssa.Function, counter stri
 					if f, ok := mc.Fn.(*ssa.Function); ok {
 						sum += closureDelta(f)
 					}
-				} else if f := call.Call.StaticCallee(); f != nil && f != fn && f.Pkg == fn.Pkg && f.Blocks != nil && len(f.Blocks) <= 3 {
+				} else if f := eng.StaticCallee(call); f != nil && f != fn && f.Pkg == fn.Pkg && f.Blocks != nil && len(f.Blocks) <= 3 {
 					sum += closureDelta(f)
 				}
 			}
@@ -1185,7 +1185,7 @@ func depthBalanceIn(c *eng.Ctx, R, fnName string, fn *ssa.Function, counter stri
 					if f, ok := mc.Fn.(*ssa.Function); ok {
 						deferred += closureDelta(f)
 					}
-				} else if f := d.Call.StaticCallee(); f != nil {
+				} else if f := eng.StaticCallee(d); f != nil {
 					deferred += closureDelta(f)
 				}
 			}
@@ -1388,7 +1388,7 @@ func ruleFormatState(c *eng.Ctx) {
 				for _, s2 := range [][2]ssa.Value{{x, y}, {y, x}} {
 					if eng.IsNilConst(s2[1]) && op == token.EQL {
 						if call, ok := s2[0].(*ssa.Call); ok {
-							if cal := call.Call.StaticCallee(); cal != nil {
+							if cal := eng.StaticCallee(call); cal != nil {
 								if es, ok := ensures[cal]; ok {
 									for v := range out {
 										if !es[v] {
@@ -1477,7 +1477,7 @@ func ruleFormatState(c *eng.Ctx) {
 			}
 			in := analyse(fn, es)
 			for _, ci := range eng.Calls(fn, false, func(string, ssa.CallInstruction) bool { return true }) {
-				cal := ci.Common().StaticCallee()
+				cal := eng.StaticCallee(ci)
 				if cal == nil || isExported(cal.Name()) {
 					continue
 				}
